@@ -1130,8 +1130,12 @@ func (w *pWorld) execHTTPReq(op Op) {
 		var lines [][]byte
 		nl := int(op.C%4) + 1
 		tooBig := false
+		full := op.D%2 == 1 && op.B%3 == 0 // a batch of messages that are each as large as allowed: with the smallest max-body-size the batch as a whole is not
 		for i := 0; i < nl; i++ {
 			sz := []int{1, 3, int(w.cfg.MaxMsgSize), int(w.cfg.MaxMsgSize) + 1, 0}[r.Intn(5)]
+			if full {
+				sz = int(w.cfg.MaxMsgSize)
+			}
 			if sz > int(w.cfg.MaxMsgSize) {
 				tooBig = true
 			}
@@ -1185,6 +1189,9 @@ func (w *pWorld) execHTTPReq(op Op) {
 		bad := []int{}
 		if int64(len(body)) > w.cfg.MaxBodySize {
 			bad = append(bad, 413)
+			if op.D%5 == 4 && !tooBig {
+				w.rc.Probe("mpub_chunked_over_body_limit_only")
+			}
 		}
 		if tooBig {
 			bad = append(bad, 413, 400)
@@ -1491,6 +1498,13 @@ func (w *pWorld) execTwin(op Op) {
 		}
 		pub.Cmd("MPUB twint", mpubBody(bodies))
 		tOK, tAns = tcpResult()
+		if (int64(len(mpubBody(bodies))) > w.cfg.MaxBodySize) != (int64(payload.Len()) > w.cfg.MaxBodySize) {
+			// max-body-size limits the body as each protocol carries it: the same messages are a few bytes
+			// longer with MPUB's count and size words than as lines of text (or shorter, with blank lines
+			// and carriage returns), and right at the limit one form fits and the other does not
+			rc.Probe("twin_body_limit_differs_by_encoding")
+			return
+		}
 	case 5: // binary multi publish
 		for i := 0; i < int(op.D); i++ {
 			bodies = append(bodies, mk(r.Intn(6)))
